@@ -31,7 +31,9 @@ def check(run, ctx):
     lint_file = repo.func(f"{ORCH}.Orchestrator.lint_file")
     paths = func_paths(lint_file)
     run.require(paths is not None, "lint_file: too many paths")
-    exec_pred = lambda n: is_call_named(n, "_execute_rules", "_safe_check_rule", "check")
+    # the first step from lint_file towards rule execution: any private Orchestrator method from which rule.check is reachable
+    _exec_names = {q.rsplit(".", 1)[-1] for q in cg.funcs if q.startswith(f"{ORCH}.Orchestrator._") and any(c.endswith(".check") and c.startswith("src.") for c in cg.reach([q]))} | {"check"}
+    exec_pred = lambda n: is_call_named(n, *sorted(_exec_names))
     excl_pred = lambda n: is_call_named(n, "_is_hardcoded_excluded")
     ign_pred = lambda n: is_call_named(n, "is_ignored")
     n_exec = 0
@@ -64,22 +66,27 @@ def check(run, ctx):
         if s["kind"] == "call" and s["name"] == "check" and any(c in check_callees for c in s["callees"]):
             if "src.core.base.BaseLintRule.check" in s["callees"]:
                 callers_of_check.add(s["caller"])
-    allowed_chain = {
-        "src.core.base.BaseLintRule.check": {f"{ORCH}.Orchestrator._safe_check_rule"},
-        f"{ORCH}.Orchestrator._safe_check_rule": {f"{ORCH}.Orchestrator._execute_rules"},
-        f"{ORCH}.Orchestrator._execute_rules": {f"{ORCH}.Orchestrator.lint_file"},
-    }
-    for callee, allowed in allowed_chain.items():
-        if callee == "src.core.base.BaseLintRule.check":
-            callers = callers_of_check
-        else:
-            callers = {s["caller"] for s in cg.sites_calling(callee, ("call", "ref"))}
-        run.require(bool(callers), f"no caller of {callee} found")
-        for c in sorted(callers):
-            if c in allowed:
-                run.ok(W1, f"{c} -> {callee.rsplit('.', 1)[-1]}", "sole route to rule execution")
-            else:
-                run.finding(W1, c, f"calls:{callee}", f"{c} reaches rule execution bypassing lint_file's exclusion gates", "")
+    # every route from a caller of rule.check up to an entry point passes through lint_file: climbing the callers, only
+    # private Orchestrator methods may lie between (whatever they are called), and the climb must end at lint_file
+    LF = f"{ORCH}.Orchestrator.lint_file"
+    run.require(bool(callers_of_check), "no caller of BaseLintRule.check found")
+    seen_up, todo_up = set(), sorted(callers_of_check)
+    while todo_up:
+        q = todo_up.pop()
+        if q in seen_up or q == LF:
+            continue
+        seen_up.add(q)
+        priv = q.startswith(f"{ORCH}.Orchestrator._") and not q.rsplit(".", 1)[-1].startswith("__")
+        if not priv:
+            run.finding(W1, q, "calls:rule.check", f"{q} reaches rule execution bypassing lint_file's exclusion gates", "")
+            continue
+        ups = {s_["caller"] for s_ in cg.sites_calling(q, ("call", "ref"))}
+        if not ups:
+            run.finding(W1, q, "unreached-executor", f"{q} executes rules but is not called from lint_file", "")
+            continue
+        run.ok(W1, f"{sorted(ups)[0].rsplit('.', 1)[-1]} -> {q.rsplit('.', 1)[-1]}", "private step between lint_file and rule.check")
+        todo_up += sorted(ups)
+    run.ok(W1, "lint_file is the sole route", f"{len(seen_up)} private Orchestrator methods between lint_file and rule.check")
 
     W2 = run.rule("W2", "directory pruning and the per-file predicate consult the same constant tables, and those contain the documented always-excluded names", floor=6,
                   decides="files inside always-excluded directories and compiled artefacts are skipped identically by the walk and by explicit naming")
